@@ -53,7 +53,7 @@ func init() {
 		Title:     "Remote write delivers every sample in order despite resharding and retries",
 		Level:     "fault_enumeration",
 		Technique: "runtime monitor of the real remote-write stack (tsdb.DB WAL → WAL watcher → queue manager → HTTP client) against a fault-injecting receiver; offline conservation/order oracle over producer and consumer logs",
-		LevelText: "Per case a real tsdb.DB (64 KiB WAL segments, exemplar storage) writes a generated history: pre-start data (must only provide series records), then float/integer-histogram/float-histogram/custom-bucket samples and exemplars on 6-14 series plus churn series with long labels (segment rotations), 0-4 head compactions (whole head or a prefix, so that part of the series survive in the checkpoint) that rotate/checkpoint/truncate the WAL while the watcher tails it, every sample stamped with the wall clock (strictly increasing) and carrying a unique value. remote.NewWriteStorage + ApplyConfig (protocol 1.0 or 2.0, capacity/batch sizes 2-20, BatchSendDeadline 50 ms, 1-5 shards, external labels, write relabeling with drop/replace/labeldrop rules) sends to an httptest receiver that decodes every request and, by a PRNG schedule, answers 2xx, 500/503 (at most 3 times per request body), 429 with and without retry_on_http_429, 400, and delays answers; 0-6 reshard requests are injected through WriteStorage.VerifReshard at PRNG-chosen points. Offline oracle over the producer log (append order per series) and the consumer log (accepted requests in arrival order): every received label set is the hand-computed 'series labels + external labels where absent, then relabel rules' of a kept series; no item of a dropped series arrives; per kept series the first occurrences of the received post-start samples are exactly the appended ones in append order, minus exactly those contained in requests the receiver rejected unrecoverably (and custom-bucket histograms under 1.0, which the sender documents as unsupported); the same for exemplars; in runs without any failed send no item arrives twice. Quiescence is logical (barrier sample received, pending gauges 0, no request in flight); a wall-clock watchdog only makes a case inconclusive. Held on the observed schedules only; thread interleavings are whatever the scheduler (and -race in the race variant) produced.",
+		LevelText: "Per case a real tsdb.DB (64 KiB WAL segments, exemplar storage) writes a generated history: pre-start data (must only provide series records), then float/integer-histogram/float-histogram/custom-bucket samples and exemplars on 6-14 series plus churn series with long labels (segment rotations), 0-4 head compactions (whole head or a prefix, so that part of the series survive in the checkpoint) that rotate/checkpoint/truncate the WAL while the watcher tails it, every sample stamped with the wall clock (strictly increasing) and carrying a unique value. remote.NewWriteStorage + ApplyConfig (protocol 1.0 or 2.0, capacity/batch sizes 2-20, BatchSendDeadline 5/20/50 ms, 1-5 shards, external labels, write relabeling with drop/replace/labeldrop rules) sends to an httptest receiver that decodes every request and, by a PRNG schedule, answers 2xx, 500/503 (at most 3 times per request body), 429 with and without retry_on_http_429, 400, and delays answers; 0-6 reshard requests are injected through WriteStorage.VerifReshard at PRNG-chosen points. Offline oracle over the producer log (append order per series) and the consumer log (accepted requests in arrival order): every received label set is the hand-computed 'series labels + external labels where absent, then relabel rules' of a kept series; no item of a dropped series arrives; per kept series the first occurrences of the received post-start samples are exactly the appended ones in append order, minus exactly those contained in requests the receiver rejected unrecoverably (and custom-bucket histograms under 1.0, which the sender documents as unsupported); the same for exemplars; in runs without any failed send no item arrives twice. Quiescence is logical (barrier sample received, pending gauges 0, no request in flight); a wall-clock watchdog only makes a case inconclusive. Held on the observed schedules only; thread interleavings are whatever the scheduler (and -race in the race variant) produced.",
 		LevelNote: "Fault points are PRNG-sampled, not exhaustively enumerated. Trusted: the receiver's own log; relabel semantics of the three simple rule shapes are computed by hand. Reductions: timestamps enter only as values (the watcher's 'after start' test is by timestamp, so everything is stamped 'now', see DESIGN §10 item 13; a side class in a third of the cases without pre-start compactions appends three samples stamped 10 min before the start and reports their non-delivery under its own kind); head compactions are issued only at logical quiescence (a watcher that lags behind a WAL truncation loses data by design); sample_age_limit is off; duplicates are only forbidden in failure-free runs (statement); metadata delivery, the queue's failed/dropped counters (recorded in the evidence, used only, in cases that ran longer than 55 s, to tell a hard shutdown from a loss) and pre-start exemplars are not judged; the failure bursts stay far below the 2 min flush deadline, so hard shutdowns do not occur.",
 		DesignRef: "DESIGN.md §5 C40, §10 item 13",
 		Rule:      "case = one generated history + queue configuration + fault/reshard schedule; non-trivial iff at least 30 post-start samples of kept series were judged and at least one of {failed send, reshard accepted, WAL segment rotation} occurred; distinct by case index + schedule summary",
@@ -579,7 +579,7 @@ func run(c *core.Case) {
 		MaxShards:         5,
 		MinShards:         1 + r.IntN(3),
 		MaxSamplesPerSend: batch,
-		BatchSendDeadline: model.Duration(50 * time.Millisecond),
+		BatchSendDeadline: model.Duration([]time.Duration{5 * time.Millisecond, 20 * time.Millisecond, 50 * time.Millisecond}[r.IntN(3)]), // below the receiver's answer delays: the deadline timer is pending while full batches queue up
 		MinBackoff:        model.Duration(5 * time.Millisecond),
 		MaxBackoff:        model.Duration(100 * time.Millisecond),
 		RetryOnRateLimit:  rcv.retry429,
